@@ -7,6 +7,7 @@
 // serialize(0, with_buffer = true) -- the layout is the one documented in tdigest_impl.hpp -- and from to_string()
 // (number of centroids / buffered values, reported centroid capacity).
 #include <memory>
+#include <functional>
 #include <sstream>
 #include <fstream>
 #include <algorithm>
@@ -329,8 +330,8 @@ template<class T> struct Driver {
     if (store) { blob[b].assign(bytes0.begin(), bytes0.end()); bwb[b] = wb; blive[b] = true; bforeign[b] = foreign[i]; }
     finish(e, i);
   }
-  void do_deser(int b, int dst) {
-    int path = (int)g.below(2); long long consumed;
+  void do_deser(int b, int dst, int forced_path = -1) {
+    int path = forced_path >= 0 ? forced_path : (int)g.below(2); long long consumed;
     if (path == 0) {
       sk[dst].reset(new TD(TD::deserialize(blob[b].data(), blob[b].size()))); consumed = (long long)blob[b].size();
     } else {
@@ -361,7 +362,7 @@ template<class T> struct Driver {
   template<class V> static V rd_be(const std::string& s, size_t& off) { V v; char* p = (char*)&v; for (size_t j = 0; j < sizeof(V); j++) p[sizeof(V) - 1 - j] = s[off + j]; off += sizeof(V); return v; }
   // independent decoder of the reference formats (layout as documented in tdigest_impl.hpp, deserialize_compat)
   static bool ref_decode(const std::string& s, int& fmt, double& mn, double& mx, int& k, std::vector<Cent>& c) {
-    size_t off = 0; if (s.size() < 32) return false;
+    size_t off = 0; if (s.size() < 30) return false;
     fmt = (int)rd_be<uint32_t>(s, off); mn = rd_be<double>(s, off); mx = rd_be<double>(s, off);
     size_t n;
     if (fmt == 1) { k = (int)rd_be<double>(s, off); n = rd_be<uint32_t>(s, off); if (s.size() < off + 16 * n) return false;
@@ -371,10 +372,11 @@ template<class T> struct Driver {
     else return false;
     return off == s.size();
   }
-  void do_refimage(int dst) {
+  void do_refimage(int dst, const std::string* given = nullptr, int forced_path = -1) {
     std::string img;
     int pick = (int)g.below(10);
-    if (pick < 2) {
+    if (given) img = *given;
+    else if (pick < 2) {
       std::ifstream f(g_refdir + (pick == 0 ? "/tdigest_ref_k100_n10000_double.sk" : "/tdigest_ref_k100_n10000_float.sk"), std::ios::binary);
       if (f) img.assign((std::istreambuf_iterator<char>(f)), std::istreambuf_iterator<char>());
     }
@@ -393,7 +395,7 @@ template<class T> struct Driver {
     }
     int fmt, k; double mn, mx; std::vector<Cent> c;
     if (!ref_decode(img, fmt, mn, mx, k, c)) { fprintf(stderr, "reference image does not decode\n"); exit(3); }
-    int path = (int)g.below(2); long long consumed;
+    int path = forced_path >= 0 ? forced_path : (int)g.below(2); long long consumed;
     if (path == 0) { sk[dst].reset(new TD(TD::deserialize(img.data(), img.size()))); consumed = (long long)img.size(); }
     else { std::istringstream is(img + std::string(16, '\x5a')); sk[dst].reset(new TD(TD::deserialize(is))); consumed = (long long)is.tellg(); }
     last[dst] = project(*sk[dst]); tainted[dst] = false; rst[dst] = false; foreign[dst] = true; if (dst < NS) twin[dst] = false;
@@ -465,6 +467,59 @@ template<class T> struct Driver {
       }
       observe_all(0); do_compress(0); observe_all(0);
       mk(1, 10); do_merge(0, 1); do_merge(1, 0); observe_all(1);   // merging an empty sketch, merging into an empty sketch
+    }
+  }
+  // (e) C09 "restore, then continue": an image taken at the EMPTY state and at exactly ONE value (buffered / compressed),
+  // with and without the buffer, restored through bytes and stream, then the restored sketch and the original receive the
+  // same NaNs, updates (across a buffer-full compress), queries and merges in lock-step; both are also used as merge operands
+  // of two equal fresh sketches.  The same for empty / one-value images in the two formats of the reference implementation
+  // (no original to compare with: the restored sketch simply has to keep behaving as the contract says).
+  void pair_mark(int a, int b) { Ev("Twin").i("a", a).i("b", b).b("sb_origin", false).emit(); }
+  std::vector<double> some(long n) { std::vector<double> v; for (long j = 0; j < n; j++) v.push_back(draw()); return v; }
+  void continue_both(int a, int b, bool both) {
+    auto on = [&](std::function<void(int)> f) { f(a); if (both) { f(b); pair_mark(a, b); } };
+    on([&](int i) { do_nan(i); });
+    for (long left = 4 * last[a].cap + (long)g.range(5, 60); left > 0; ) {
+      long m = std::min(left, (long)g.range(1, 150)); left -= m;
+      auto vals = some(m);
+      on([&](int i) { do_updates(i, vals); });
+      if (g.chance(20)) { auto ps = rank_pool(last[a]); on([&](int i) { do_quantgrid(i, ps); }); }
+    }
+    auto xs = value_pool(last[a]); on([&](int i) { do_rankgrid(i, xs); });
+    auto ps = rank_pool(last[a]); on([&](int i) { do_quantgrid(i, ps); });
+    on([&](int i) { Ev e("Obs"); e.i("id", i).raw("r", proj_json(project(*sk[i]))); if (rst[i]) e.b("restored", true); e.emit(); });
+  }
+  void directed_restore(long seg) {
+    begin_segment(seg, "restore-empty-or-one-value-and-continue");
+    static const int KS[] = {10, 11, 30};
+    int combo = 0;
+    for (int state = 0; state < 3; state++) for (int wb = 1; wb >= 0; wb--) for (int path = 0; path < 2; path++, combo++) {
+      const int k = KS[combo % 3];
+      mk(0, k);
+      if (state >= 1) do_updates(0, some(1));
+      if (state == 2) do_compress(0);
+      do_ser(0, 0, wb != 0, combo % 4 == 3 ? 8 : 0, true);
+      do_deser(0, NS, path); pair_mark(0, NS);
+      if (last[0].empty) { do_emptyquery(0); do_emptyquery(NS); }
+      if (combo % 2 == 1) {   // the restored sketch as a merge TARGET in its restored state
+        mk(1, k); do_updates(1, some(g.range(1, 60)));
+        do_merge(0, 1); do_merge(NS, 1); pair_mark(0, NS);
+      }
+      continue_both(0, NS, true);
+      // ... and as a merge OPERAND of two equal fresh sketches
+      mk(1, k); mk(2, k); { auto vals = some(g.range(0, 40)); if (!vals.empty()) { do_updates(1, vals); do_updates(2, vals); } }
+      do_merge(1, 0); do_merge(2, NS); pair_mark(1, 2);
+      sk[NS].reset();
+    }
+    for (int fmt = 1; fmt <= 2; fmt++) for (int one = 0; one < 2; one++) for (int path = 0; path < 2; path++) {
+      std::vector<Cent> c; double mn = INFINITY, mx = -INFINITY;   // an empty digest of the reference implementation: min = +inf, max = -inf
+      if (one) { double v = (double)(float)draw(); c.push_back({v, 1}); mn = mx = v; }
+      const std::string img = ref_image(fmt, mn, mx, KS[(fmt + one + path) % 3], c);
+      do_refimage(0, &img, path); foreign[0] = false;   // nothing foreign about it: no centroid stands for several values
+      if (last[0].empty) do_emptyquery(0);
+      continue_both(0, 0, false);
+      mk(1, 10); do_updates(1, some(g.range(1, 40))); do_merge(1, 0);
+      { Ev e("Obs"); e.i("id", 1).raw("r", proj_json(project(*sk[1]))); e.emit(); }
     }
   }
   // (c) one long stream, with a quantile grid now and then
@@ -668,6 +723,11 @@ int main(int argc, char** argv) {
     }
     Ev("Verdict").emit();
   } else {
+    if (vt::argl(argc, argv, "--restore", 0) > 0) {   // directed C09 segments, present in every run of the job
+      alarm(120);
+      { Driver<double> d(g, serde_pct); d.hdr_pct = hdr_pct; d.directed_restore(-1); }
+      { Driver<float> d(g, serde_pct); d.hdr_pct = hdr_pct; d.directed_restore(-2); }
+    }
     for (long seg = 0; seg < segments; seg++) {
       alarm(30);    // watchdog: a sketch that loops forever is a finding (the recorder dies by SIGALRM), not a hung check
       if (g.chance(35)) { Driver<float> d(g, serde_pct); d.hdr_pct = hdr_pct; d.bigk_pct = bigk_pct; d.segment(seg, events); }
